@@ -893,6 +893,53 @@ def xcheck_job(j: dict) -> dict:
             "recipe": recipe, "hashseed": j["hashseed"], "outs": [key(a), key(b), key(c)]}
 
 
+def coverage_worker(arg) -> dict:
+    """Reach measure: statement coverage of the library achieved by constructing and
+    encoding the documents of a sample of generated histories (informational)."""
+    try:
+        import coverage
+    except Exception:  # noqa: BLE001
+        return {"available": False}
+    from . import boot
+
+    cov = coverage.Coverage(source=[boot.PKG_DIR], data_file=None, branch=False)
+    cov.start()
+    try:
+        boot.bootstrap()
+        figdir = tempfile.mkdtemp(prefix="vcov_")
+        n = 0
+        for idx in arg["indices"]:
+            plan = gen_plan(core.rng_for(arg["root"], PROP, idx))
+            for rec in plan["recipes"]:
+                try:
+                    d, _ = R.build(rec, None, None, figdir)
+                    d.rtf_encode()
+                    n += 1
+                except BaseException:  # noqa: BLE001
+                    pass
+    finally:
+        cov.stop()
+    out = {"available": True, "documents": n, "modules": {}}
+    tot_s = tot_m = 0
+    data = cov.get_data()
+    for f in sorted(data.measured_files()):
+        rel = os.path.relpath(f, boot.PKG_DIR)
+        if rel.startswith(("dictionary", "assemble", "convert")):
+            continue  # tables of constants / not on the encode path
+        try:
+            _, stmts, _, missing, _ = cov.analysis2(f)
+        except Exception:  # noqa: BLE001
+            continue
+        if not stmts:
+            continue
+        out["modules"][rel] = round(100.0 * (len(stmts) - len(missing)) / len(stmts), 1)
+        tot_s += len(stmts)
+        tot_m += len(missing)
+    out["encode_path_statement_coverage_pct"] = round(100.0 * (tot_s - tot_m) / tot_s, 1) if tot_s else None
+    shutil.rmtree(figdir, ignore_errors=True)
+    return out
+
+
 def main(opts) -> int:
     from . import boot, cli
 
@@ -951,16 +998,25 @@ def main(opts) -> int:
 
     n_new, n_known, rc = cli.report(PROP, violations, herrs, confirm, body)
 
+    covinfo = None
+    if not opts.no_evidence:
+        try:
+            # fresh interpreter: the tracer has to be running before the package is imported
+            covinfo = core.run_fresh("sim.histories:coverage_worker",
+                                     {"root": root, "indices": list(range(min(runs, 120)))},
+                                     timeout=240, bootstrap=False)
+        except HarnessError:
+            covinfo = {"available": False}
     wall_s = time.monotonic() - t0
     if not opts.no_evidence:
-        write_evidence(opts, good, len(results), truncated, xres, n_new, n_known, wall_s, herrs)
+        write_evidence(opts, good, len(results), truncated, xres, n_new, n_known, wall_s, herrs, covinfo)
     print(f"C14 {opts.tier}: {len(good)} histories, {sum(r['checked_encodes'] for r in good)} checked encodes, "
           f"{n_new} new violation(s), {n_known} known, {len(herrs)} harness error(s), {wall_s:.1f}s"
           + (" [truncated by wall cap]" if truncated else ""))
     return rc
 
 
-def write_evidence(opts, good, nres, truncated, xres, n_new, n_known, wall_s, herrs):
+def write_evidence(opts, good, nres, truncated, xres, n_new, n_known, wall_s, herrs, covinfo=None):
     from . import boot
 
     states, trans, nontriv = set(), set(), set()
@@ -1031,6 +1087,7 @@ def write_evidence(opts, good, nres, truncated, xres, n_new, n_known, wall_s, he
             "fork_vs_fresh_agree": sum(1 for r in xres.values() if r.get("fork_vs_fresh")),
             "fresh_hashseed0_vs_other_agree": sum(1 for r in xres.values() if r.get("fresh_vs_fresh")),
         },
+        "library_statement_coverage_by_generated_documents": covinfo,
         "runs_dispatched": nres, "truncated_by_wall_cap": truncated,
         "known_findings_matched": n_known,
         "harness_errors": len(herrs),
